@@ -720,6 +720,12 @@ func streamOpl(t *testing.T, o *Out) {
 			}
 			emitLex("s", s)
 			emitParse("s", s, "gen=soup")
+		case c == 11 && i%40 == 11:
+			// names whose concatenations collide (a declared relation of one namespace against an
+			// undeclared one of another), and the twin in which the relation is declared
+			o.Count("gen:colliding-names")
+			emitParse("k", oplCollideDoc(r, false), "gen=collide")
+			emitParse("k", oplCollideDoc(r, true), "gen=collide-declared")
 		case c == 11:
 			depth := 1 + r.Intn(14)
 			o.Count(fmt.Sprintf("gen:nesting:%02d", depth))
